@@ -21,7 +21,7 @@ func init() {
 			"grammar-derived boundary strings, one-rule splices into valid hosts, deeply nested / very long regular paths) parsed under 3 configurations (none, functions, functions+accessor); judged: no panic / process death / hang, " +
 			"exactly one of (f,nil) or (nil, one of 4 syntax error types), returned f callable on 3 probe documents; non-trivial = the string is not rejected as " +
 			"`unrecognized input` at position 0 and is not a plain accepted suite path; distinct = distinct strings",
-		Assumptions: []string{"bounded time is observed as 'returned before the 10 s per-case watchdog (confirmed 3x60 s alone)'; measured worst case for 256-char inputs is < 20 ms",
+		Assumptions: []string{"bounded time is observed as 'returned before the 10 s per-case watchdog (time spent inside one library call; confirmed twice alone in fresh processes, 45 s each)'; measured worst case for 256-char inputs is < 20 ms",
 			"process death is observed by the parent through the worker's exit status and progress log"},
 		Plan: func(tier string, seed int64) *harness.Plan {
 			var src *strSource
